@@ -393,6 +393,53 @@ class Unit:
         return []
 
 
+def probe_inputs(decls, rng, k):
+    """k concrete input assignments (JSON form) for native probing: boundary values first, then pseudo-random ones.
+    Used only to LOOK FOR a counterexample where the symbolic execution is not available -- never to establish
+    anything."""
+
+    def one(d, mode):
+        if isinstance(d, U):  # (Size is a U)
+            span = d.hi - d.lo
+            small = min(d.hi, d.lo + 64)
+            if mode == "lo":
+                return d.lo
+            if mode == "hi":
+                return d.hi if span < (1 << 16) or not isinstance(d, Size) else small
+            if isinstance(d, Size):
+                return rng.randint(d.lo, small)
+            if mode == "small":
+                return min(d.hi, d.lo + rng.getrandbits(rng.randint(0, 8)))
+            r = rng.random()
+            if r < 0.25:
+                return d.lo + (1 << rng.randrange(0, max(1, span.bit_length()))) % (span + 1)
+            if r < 0.4:
+                return d.hi - rng.randint(0, min(span, 3))
+            return rng.randint(d.lo, d.hi)
+        if isinstance(d, Bytes):
+            if mode == "lo":
+                return [0] * d.n
+            if mode == "hi":
+                return [255] * d.n
+            return [rng.choice((0, 1, 0x7F, 0x80, 0xFF, rng.randrange(256))) for _ in range(d.n)]
+        if isinstance(d, Buf):
+            top = min(d.maxlen, max(d.minlen, 64))
+            n = d.minlen if mode == "lo" else top if mode == "hi" else rng.randint(d.minlen, top)
+            return [0 if mode == "lo" else rng.choice((0, 1, 0xFF, rng.randrange(256))) for _ in range(n)]
+        if isinstance(d, Flag):
+            return mode == "hi" if mode in ("lo", "hi") else rng.random() < 0.5
+        if isinstance(d, Str):
+            return {"lo": "", "hi": "/dev/sg0"}.get(mode) if mode in ("lo", "hi") else rng.choice(["/dev/sg1", "iscsi://h/iqn.t/1", "x", "/dev/", "ISCSI://H/T/0"])
+        raise Unsupported("no probe values for %s" % type(d).__name__)
+
+    out = []
+    for i in range(k):
+        # boundary values, then small values (transfer sizes stay small), then the full range
+        mode = "lo" if i == 0 else "small" if i < 2 + (k - 2) // 2 else "hi" if i == 2 + (k - 2) // 2 else "random"
+        out.append({name: one(d, mode) for name, d in decls.items()})
+    return out
+
+
 def model_inputs(decls, syms, model):
     return {k: decls[k].from_model(model, syms[k]) for k in decls}
 
